@@ -4,6 +4,7 @@ open AgdbStorage
 structure DrvState where
   wal : WalDrv := {}
   st : StDrv := {}
+  rd : RdDrv := {}
 
 def step (st : DrvState) (line : String) : DrvState × String :=
   match line.trimAscii.toString.splitOn " " with
@@ -14,6 +15,9 @@ def step (st : DrvState) (line : String) : DrvState × String :=
   | "st" :: rest =>
     let (w, o) := stStep st.st rest
     ({ st with st := w }, o)
+  | "rd" :: rest =>
+    let (w, o) := rdStep st.rd rest
+    ({ st with rd := w }, o)
   | _ => (st, "bad-op")
 
 partial def loop (h : IO.FS.Stream) (out : IO.FS.Stream) (st : DrvState) : IO Unit := do
